@@ -38,7 +38,9 @@ impl C10Checker {
         C10Checker { sep_pref_changed_since_set: false, chem_pref_changed_since_set: false, checkpoints: 0 }
     }
 
-    fn checkpoint(&mut self, s: &mut Sess, reset: bool, order: &[usize]) {
+    /// `only`: compare just the getters named in `order` and do not call the others (sparse checkpoints: the rule sets of
+    /// the getters that are NOT called stay as an earlier configuration left them)
+    fn checkpoint(&mut self, s: &mut Sess, reset: bool, order: &[usize], only: bool) {
         let Some(src) = s.cur_src.clone() else { return };
         let Some(dir) = s.rules_dir.clone() else { return };
         self.checkpoints += 1;
@@ -73,7 +75,7 @@ impl C10Checker {
             }
         }
         for g in 0..3 {
-            if first[g].is_none() {
+            if first[g].is_none() && !only {
                 first[g] = Some(norm(&s.call(&getters[g])));
             }
         }
@@ -90,11 +92,12 @@ impl C10Checker {
             );
             return;
         }
-        let mut pairs: Vec<(&str, Res, Res)> = vec![
-            ("get_spoken_text", first[0].clone().unwrap(), norm(&r.speech)),
-            ("get_braille", first[1].clone().unwrap(), norm(&r.braille)),
-            ("get_overview_text", first[2].clone().unwrap(), norm(&r.overview)),
-        ];
+        let mut pairs: Vec<(&str, Res, Res)> = Vec::new();
+        for (g, (name, exp)) in [("get_spoken_text", &r.speech), ("get_braille", &r.braille), ("get_overview_text", &r.overview)].iter().enumerate() {
+            if let Some(got) = first[g].clone() {
+                pairs.push((name, got, norm(exp)));
+            }
+        }
         if let Some(set) = set {
             pairs.insert(0, ("set_mathml", set, norm(&r.set_mathml)));
         }
@@ -161,7 +164,8 @@ impl Checker for C10Checker {
         if kind == "checkpoint" {
             let reset = args["reset"].as_bool().unwrap_or(true);
             let order: Vec<usize> = args["order"].as_array().map(|a| a.iter().filter_map(|x| x.as_u64().map(|v| v as usize)).collect()).unwrap_or_default();
-            self.checkpoint(s, reset, &order);
+            let only = args["only"].as_bool().unwrap_or(false);
+            self.checkpoint(s, reset, &order, only);
         }
     }
 }
@@ -319,6 +323,33 @@ pub fn directed() -> Vec<Trace> {
                     s.push(Step::Call(Op::NodeFromPos(PosRef::Abs(1))));
                     s.push(Step::Call(Op::SetPref(name.to_string(), x.to_string())));
                     s.push(Step::Check { kind: "checkpoint".into(), args: json!({"reset": true, "order": [1, 1, 0, 2, 0]}) });
+                }
+                t.sessions = vec![s];
+                v.push(t);
+            }
+        }
+    }
+    // sparse away-and-back: under X only getter a is used, under Y only getter b (another one), back under X getter a first:
+    // the rule sets share tables (Unicode, definitions), each keeps its own record of what it loaded
+    for (name, vals) in groups.iter().filter(|(n, _)| ["Language", "SpeechStyle", "BrailleCode"].contains(n)) {
+        for (xi, x) in vals.iter().enumerate() {
+            for (yi, y) in vals.iter().enumerate() {
+                if x == y {
+                    continue;
+                }
+                let mut t = Trace::new("C10", "C10");
+                t.origin = format!("directed sparse away-and-back {} {}->{}->{}", name, x, y, x);
+                let mut s = vec![Step::Call(Op::SetRulesDir(MOUNT_A.into())), Step::Call(Op::SetPref(name.to_string(), x.to_string()))];
+                for (k, e) in [5usize, 8, 12].iter().enumerate() {
+                    let a = (xi + yi + k) % 3;
+                    let b = (a + 1 + k % 2) % 3;
+                    s.push(Step::Call(Op::SetMathml(ExprRef::Pool(*e))));
+                    s.push(Step::Check { kind: "checkpoint".into(), args: json!({"reset": false, "order": [a], "only": true}) });
+                    s.push(Step::Call(Op::SetPref(name.to_string(), y.to_string())));
+                    s.push(Step::Check { kind: "checkpoint".into(), args: json!({"reset": k == 1, "order": [b], "only": true}) });
+                    s.push(Step::Call(Op::SetPref(name.to_string(), x.to_string())));
+                    s.push(Step::Check { kind: "checkpoint".into(), args: json!({"reset": k == 2, "order": [a], "only": true}) });
+                    s.push(Step::Check { kind: "checkpoint".into(), args: json!({"reset": false, "order": [b, 3 - a - b]}) });
                 }
                 t.sessions = vec![s];
                 v.push(t);
